@@ -99,3 +99,4 @@ def run(ctx):
             ctx.fail("trace-rejected:Trace_BiffCells", {"kind": "trace", "trace": trace, "info": v["info"],
                                                         "tlc_output": v["out"]})
     ctx.exhaustive = True
+    ctx.bigsst_leg("xls")
